@@ -255,7 +255,14 @@ func mutateURL(r *prng.R, u string) string {
 	return u
 }
 
+// method spellings in lower / mixed case on the FILTER side (the expression uses the text as written, the engine
+// compares exactly; the proxy captures the method as sent, normally upper case)
+var methodsOddCase = [][]string{{"get"}, {"Post"}, {"get", "POST"}, {"GET", "get"}, {"delete"}, {"pAtCh", "PUT"}}
+
 func genMethods(r *prng.R) []string {
+	if r.Chance(12) {
+		return append([]string(nil), prng.Pick(r, methodsOddCase)...)
+	}
 	switch r.Intn(10) {
 	case 0, 1, 2:
 		return nil
@@ -339,8 +346,14 @@ func genReqs(r *prng.R, pats []string, methods [][]string, n int) []string {
 				ms = methodsDflt
 			}
 			m = prng.Pick(r, ms)
+			if r.Chance(70) {
+				m = strings.ToUpper(m) // the proxy's form: the method as captured from real traffic
+			}
 		} else {
 			m = prng.Pick(r, methodsAll)
+		}
+		if r.Chance(4) {
+			m = strings.ToLower(m) // methods are case-sensitive tokens: a lower-case request method is another method
 		}
 		ops = append(ops, reqOp(m, u))
 	}
@@ -427,6 +440,9 @@ func genPolicyCase(r *prng.R) []string {
 		// by-URL side table is C13's business (text vs parts key); keep one spelling per parameter here
 		p = strings.NewReplacer("{{id}}", "{id:int}", "{id}}", "{user.id}").Replace(p)
 		m := prng.Pick(r, methodsAll[:6])
+		if r.Chance(12) {
+			m = prng.Pick(r, []string{"get", "Post", "delete", "pUt"})
+		}
 		pats = append(pats, p)
 		methods = append(methods, []string{m})
 		if r.Chance(35) {
